@@ -479,6 +479,47 @@ def f3_run(spec, tier, seed, scratch, stats):
                     stats.violation(x['sig'], x['case'], x['message'])
 
 
+# ---- F3b: duplicate entries whose individual hash values are independently right or wrong
+
+def f3b_shards(tier, seed):
+    return [('F3b', placement, hi) for placement in ('same', 'parent_child') for hi in range(3)]
+
+
+def f3b_run(spec, tier, seed, scratch, stats):
+    _f, placement, hi = spec
+    fn, dn = names(seed)
+    d = dn[0]
+    full = f'{d}/{fn[0]}'
+    actual, other = b'actual content', b'OTHER!!content'      # same size
+    H1, H2 = [(('MD5', 'SHA1'), ('MD5', 'SHA256')), (('MD5', 'SHA512'), ('MD5', 'SHA1', 'SHA256')),
+              (('SHA1',), ('MD5', 'SHA1', 'SHA512'))][hi]
+    sub = mname(d)
+    cells = [(0, h) for h in H1] + [(1, h) for h in H2]
+    for bits in itertools.product((True, False), repeat=len(cells)):
+        for order in (0, 1):
+            ents = []
+            for ei, hs in ((0, H1), (1, H2)):
+                cks = tuple(sorted((h, rm.hexdigest(h, actual if bits[cells.index((ei, h))] else other)) for h in hs))
+                ents.append(cks)
+            if order:
+                ents = ents[::-1]
+
+            def ent(cks, mdir):
+                rel = full[len(mdir) + 1:] if mdir else full
+                return ('E', ('DATA', rel, len(actual), cks))
+            if placement == 'same':
+                specs = [MSpec(TOP, [('M', sub, ('SHA1',))]), MSpec(sub, [ent(ents[0], d), ent(ents[1], d)])]
+            else:
+                specs = [MSpec(TOP, [ent(ents[0], ''), ('M', sub, ('SHA1',))]), MSpec(sub, [ent(ents[1], d)])]
+            tree = Scenario({full: actual}, specs).build()
+            desc = (spec, bits, order)
+            case = {'tree': tree.to_json(), 'path': '', 'desc': repr(desc)}
+            vs, v = check_case(case, scratch, stats)
+            stats.case(desc, nontrivial=v.kind != 'dontcare')
+            for x in vs:
+                stats.violation(x['sig'], x['case'], x['message'])
+
+
 # ---- F4: IGNORE (component-wise) and hidden names
 
 def f4_shards(tier, seed):
@@ -723,7 +764,7 @@ def f8_run(spec, tier, seed, scratch, stats):
 
 FAMILIES = {
     'F1': (f1_shards, f1_run), 'F2': (f2_shards, f2_run), 'F2sib': (None, f2_run),
-    'F3': (f3_shards, f3_run), 'F4': (f4_shards, f4_run), 'F5': (f5_shards, f5_run),
+    'F3': (f3_shards, f3_run), 'F3b': (f3b_shards, f3b_run), 'F4': (f4_shards, f4_run), 'F5': (f5_shards, f5_run),
     'F6': (f6_shards, f6_run), 'F7': (f7_shards, f7_run), 'F8': (f8_shards, f8_run),
 }
 
